@@ -1212,63 +1212,65 @@ def c19_file(case):
     fp = os.path.join(td, "out.csv")
     tw = None
     try:
-        expected_header = pytrs.Tract.get_headers(attrs, nh)
-        uid = a.get("uid")
-        if uid is not None:
-            expected_header = expected_header + ["UID"]
+        base_header = pytrs.Tract.get_headers(attrs, nh)
+        headers = [base_header, base_header + ["UID"]]
         ident = {}
         for d, o in objs.items():
             for i, t in enumerate(o.tracts, start=1):
                 ident[(t.trs, t.desc)] = (d, i, t)
+
+        def alpha(s_):
+            n = 0
+            for ch in s_:
+                if not ("a" <= ch <= "z"):
+                    return -1
+                n = n * 26 + (ord(ch) - 96)
+            return n
+
+        def parse_uid(cell):
+            m = re.fullmatch(r"(\d{4,})\.([a-z]+)-([a-z]+)", cell)
+            return [int(m.group(1)), alpha(m.group(2)), alpha(m.group(3))] if m else [-1, -1, -1]
         ti, di = attrs.index("trs"), attrs.index("desc")
 
         def read_back():
             if not os.path.exists(fp):
-                return [], True
+                return [], [], True
             if tw is not None and tw.is_open:
                 tw.file.flush()
             with open(fp, newline="") as f:
                 got = list(csv.reader(f))
-            rows, ok = [], True
+            rows, uids, ok = [], [], True
             for r in got:
-                if r == expected_header or r == ["trs", "desc"] and False:
+                if r in headers:
                     rows.append([0, 0])
+                    uids.append([0, 0, 0])
                     continue
                 key = (r[ti], r[di]) if len(r) > max(ti, di) else None
                 if key in ident:
                     d, i, t = ident[key]
                     rows.append([d, i])
+                    uids.append(parse_uid(r[len(attrs)]) if len(r) > len(attrs) else [0, 0, 0])
                     for j, att in enumerate(attrs):
                         val = getattr(t, att, "%s: n/a" % att)
                         if j >= len(r) or not _cell_ok(r[j], val):
                             ok = False
-                elif r == a.get("legacy_header"):
-                    rows.append([0, 0])
                 else:
                     rows.append([-1, -1])
-            return rows, ok
+                    uids.append([0, 0, 0])
+            return rows, uids, ok
 
         for seq, op in enumerate(a["ops"]):
-            ev = {"tid": case["id"], "seq": seq, "kind": "file", "op": op, "rows": [], "ret": {"kind": "none", "n": 0},
+            ev = {"tid": case["id"], "seq": seq, "kind": "file", "op": op, "rows": [], "uids": [], "ret": {"kind": "none", "n": 0},
                   "cells_ok": True, "exc": "none"}
             try:
                 name = op["name"]
                 if name == "start":
                     if op["mode"] == "exists":
                         objs[2].tracts_to_csv(attrs, fp, "w", nice_headers=nh)
-                        if uid is not None:
-                            # a pre-existing file written with a UID column
-                            os.unlink(fp)
-                            w0 = TractWriter(attrs, fp, "w", nice_headers=nh, uid=uid)
-                            w0.write(objs[2])
-                            w0.close()
                 elif name == "csv":
-                    if uid is not None:
-                        # tracts_to_csv has no UID column: use a header without it for identification
-                        pass
                     objs[op["d"]].tracts_to_csv(attrs, fp, op["mode"], nice_headers=nh)
                 elif name == "winit":
-                    tw = TractWriter(attrs, fp, op["mode"], nice_headers=nh, uid=uid)
+                    tw = TractWriter(attrs, fp, op["mode"], nice_headers=nh, uid=(op["d"] or None))
                 elif name == "wwrite":
                     n = tw.write(objs[op["d"]] if op["d"] else None)
                     ev["ret"] = {"kind": "count", "n": n}
@@ -1279,7 +1281,7 @@ def c19_file(case):
             except Exception as e:  # noqa
                 ev["exc"] = type(e).__name__
                 ev["exc_msg"] = str(e)[:200]
-            ev["rows"], ev["cells_ok"] = read_back()
+            ev["rows"], ev["uids"], ev["cells_ok"] = read_back()
             events.append(ev)
     finally:
         try:
